@@ -6,6 +6,7 @@ import (
 	"fmt"
 	"image"
 	"image/color"
+	"math"
 	"strings"
 	"time"
 
@@ -147,6 +148,19 @@ func aePictures(seed int64, alphaOnly bool) []aePic {
 		}
 	}
 	add("small-5x3", small, fullSmall)
+	// other undersized shapes: a later one does not cover an earlier one
+	for _, d := range [][2]int{{3, 5}, {2, 2}} {
+		sm := image.NewNRGBA(image.Rect(0, 0, d[0], d[1]))
+		fs := image.NewNRGBA(image.Rect(0, 0, aeW, aeH))
+		for y := 0; y < d[1]; y++ {
+			for x := 0; x < d[0]; x++ {
+				c := color.NRGBA{uint8(40 * d[0]), uint8(60 * x), uint8(50 * y), 255}
+				sm.SetNRGBA(x, y, c)
+				fs.SetNRGBA(x, y, c)
+			}
+		}
+		add(fmt.Sprintf("small-%dx%d", d[0], d[1]), sm, fs)
+	}
 	// a sub-image view with a foreign stride and non-zero origin
 	parent := image.NewNRGBA(image.Rect(0, 0, aeW+5, aeH+3))
 	for i := range parent.Pix {
@@ -229,6 +243,22 @@ func aeLargePictures(seed int64, alphaOnly bool) []aePic {
 			semiOnlyL.SetNRGBA(x, y, semi.NRGBAAt(x, y))
 		}
 	}
+	glow := clone(noise) // curved alpha surface with more than 16 levels, saturating at 255 and resting at 0
+	for y := 0; y < aeLH; y++ {
+		for x := 0; x < aeLW; x++ {
+			dx, dy := float64(x)-11.5, float64(y)-7.5
+			g := 340 * math.Exp(-(dx*dx+dy*dy)/50)
+			if g > 255 {
+				g = 255
+			}
+			if g < 3 {
+				g = 0
+			}
+			c := glow.NRGBAAt(x, y)
+			c.A = uint8(g)
+			glow.SetNRGBA(x, y, c)
+		}
+	}
 	semiO := clone(semi) // an opaque pixel appears inside the translucent band of the second macroblock
 	semiO.SetNRGBA(19, 7, color.NRGBA{250, 240, 10, 255})
 	if alphaOnly {
@@ -237,6 +267,7 @@ func aeLargePictures(seed int64, alphaOnly bool) []aePic {
 		self("L-semi-band", semi)
 		self("L-semi-band-opaque-px", semiO)
 		self("L-semi-band-alone", semiOnlyL)
+		self("L-glow", glow)
 		self("L-binary-right", binR)
 		self("L-late-row-transparent", late)
 		return out
@@ -283,7 +314,7 @@ func aeCoreOps(pics []aePic) []aeOp {
 	var ops []aeOp
 	for i, p := range pics {
 		switch p.name {
-		case "base", "binary", "binary+1px", "binary+1px-recoloured", "binary+other-px", "semi-band", "semi-band-1px", "semi-band-opaque-px":
+		case "base", "binary", "binary+1px", "binary+1px-recoloured", "binary+other-px", "semi-band", "semi-band-1px", "semi-band-opaque-px", "small-5x3", "small-3x5":
 			ops = append(ops, aeOp{i, 100})
 		}
 	}
@@ -652,7 +683,7 @@ func init() {
 			}
 			return 4
 		},
-		"explicit-state BFS over the real lossless AnimEncoder on an 8x8 canvas: every AddFrame history up to depth 3 (thorough 4; a 7-picture core alphabet one level deeper) over 22 (picture, duration) operations (15 pictures: base, 1-pixel changes at even/odd coordinates, 2x2 block, all changed, translucent band with unchanged translucent neighbours, pixel becoming transparent, binary alpha, smaller than canvas, foreign-stride view, fully transparent; durations 0/1/100/0xFFFFFF ms) x 8 configurations (Kmin/Kmax x loop count), and a third search on a 24x16 canvas over 10 pictures that have more colours than a palette holds (every pixel its own colour; changed corner pixels whose bounding box is the canvas; a changed region followed by unchanged pixels; transparent pixels that come only after 256 colours; translucent band); every history is closed and played back by animation.DecodeBytes+AnimDecoder and by the reference stack and compared with the run-length-merged input list, display times, total duration, loop count, canvas size")
+		"explicit-state BFS over the real lossless AnimEncoder on an 8x8 canvas: every AddFrame history up to depth 3 (thorough 4; a 10-picture core alphabet one level deeper) over 25 (picture, duration) operations (18 pictures: base, 1-pixel changes at even/odd coordinates, 2x2 block, all changed, translucent band with unchanged translucent neighbours, pixel becoming transparent, binary alpha, smaller than the canvas in three shapes, foreign-stride view, fully transparent; durations 0/1/100/0xFFFFFF ms) x 8 configurations (Kmin/Kmax x loop count), and a third search on a 24x16 canvas over 10 pictures that have more colours than a palette holds (every pixel its own colour; changed corner pixels whose bounding box is the canvas; a changed region followed by unchanged pixels; transparent pixels that come only after 256 colours; translucent band); every history is closed and played back by animation.DecodeBytes+AnimDecoder and by the reference stack and compared with the run-length-merged input list, display times, total duration, loop count, canvas size")
 	registerAnimEnc("C18", true,
 		func(e *fw.Env) []aeConfig {
 			var out []aeConfig
@@ -675,5 +706,5 @@ func init() {
 			}
 			return 4
 		},
-		"explicit-state BFS over the real AnimEncoder in lossy and mixed-codec modes on an 8x8 canvas: every AddFrame history up to depth 3 (thorough 4; a reduced alphabet one level deeper) over 11 operations (10 pictures with binary, graded and translucent alpha on opaque and on transparent ground, fully transparent, opaque; durations 0/100/0xFFFFFF ms) x 8 configurations (Lossless x AllowMixed x Quality x key-frame setting), and a third search on a 24x16 canvas (two macroblocks) over 7 pictures; the alpha channel of every played-back canvas (this package's player and the reference stack) must equal the source alpha exactly")
+		"explicit-state BFS over the real AnimEncoder in lossy and mixed-codec modes on an 8x8 canvas: every AddFrame history up to depth 3 (thorough 4; a reduced alphabet one level deeper) over 11 operations (10 pictures with binary, graded and translucent alpha on opaque and on transparent ground, fully transparent, opaque; durations 0/100/0xFFFFFF ms) x 8 configurations (Lossless x AllowMixed x Quality x key-frame setting), and a third search on a 24x16 canvas (two macroblocks) over 8 pictures; the alpha channel of every played-back canvas (this package's player and the reference stack) must equal the source alpha exactly")
 }
